@@ -13,6 +13,7 @@ import (
 
 func (m *manager) vtrace(event string, fetchInFlight bool)                 {}
 func (m *manager) vrequest(req manifestRequest)                            {}
+func (m *manager) vrefuse(req manifestRequest, response error)             {}
 func (m *manager) vreply(ch chan<- error, response error)                  {}
 func (m *manager) vannounce(lease mtypes.LeaseID, mani *manifest.Manifest) {}
 func (s *service) vtrace(event string)                                     {}
